@@ -11,9 +11,11 @@ EXTENDS Integers, Sequences, FiniteSets, TLC, Json
 
 Sites == {"tls-secret", "auth-tls-secret", "secure-crt-secret", "secure-verify-ca-secret", "auth-secret", "auth-url-svc", "gateway-certref"}
 (* namespace: the namespace field of a Gateway certificateRef *)
-Forms == {"ns/name", "secret://ns/name", "namespace"}
+(* file://ns/name: a file path that happens to look like the name of the foreign secret (auth-secret) *)
+Forms == {"ns/name", "secret://ns/name", "namespace", "file://ns/name"}
 (* prev: the settings before the ones under test -- "allow": every key allowed the reference and that state was reconciled *)
-Prevs == {"none", "allow"}
+(* flip: the settings under test were in use, then allow and the settings under test again arrive in one batch *)
+Prevs == {"none", "allow", "flip"}
 Exposures == {"unused", "used-by-foreign-ingress"}
 
 KeyOf(site) ==
@@ -25,19 +27,24 @@ KeyOf(site) ==
 (* c = [site, form, crt, ca, passwd, services (each "allow" | "deny" | "bogus"), static, exposure] *)
 Permitted(c) ==
     LET k == KeyOf(c.site) IN
-    IF k = "services" THEN c.services = "allow"
+    IF c.form = "file://ns/name" THEN FALSE        \* a file path grants nothing: the foreign secret must not matter
+    ELSE IF k = "services" THEN c.services = "allow"
     ELSE c.static \/ c[k] = "allow"
 
 Vals == {"allow", "deny"}
 Cases == {c \in [site : Sites, form : Forms, crt : Vals \cup {"bogus"}, ca : Vals, passwd : Vals, services : Vals, static : BOOLEAN, exposure : Exposures, prev : Prevs] :
-            \* auth-url svc:// and the secure-* keys only take the ns/name form (secret:// is refused as a malformed name)
-            /\ (c.site \in {"auth-url-svc", "secure-crt-secret", "secure-verify-ca-secret"} => c.form = "ns/name")
+            /\ (c.site = "auth-url-svc" => c.form = "ns/name")
+            /\ (c.form = "file://ns/name" => c.site = "auth-secret")
             /\ (c.form = "namespace" => c.site = "gateway-certref")
             /\ (c.site = "gateway-certref" => c.form \in {"ns/name", "namespace"})}
 
 (* a form the controller documents as not implemented is never honoured, whatever the settings (the namespace of a Gateway
    certificateRef): only the "no influence" side is judged for it *)
-Honoured(c) == ~(c.site = "gateway-certref" /\ c.form = "namespace")
+Honoured(c) ==
+    /\ ~(c.site = "gateway-certref" /\ c.form = "namespace")
+    \* the secure-* keys refuse a value with a protocol (a malformed name); a file:// value never names a secret
+    /\ ~(c.site \in {"secure-crt-secret", "secure-verify-ca-secret"} /\ c.form = "secret://ns/name")
+    /\ c.form # "file://ns/name"
 
 VARIABLE cs
 Init == cs \in Cases
